@@ -126,7 +126,7 @@ def gen_case(seed, i, tier="quick"):
     if fam == "benign_scan":
         n = rng.choice((10, 1000, 10000))   # linear: two steps per start position
     if fam.startswith("lb_scan_quadratic"):
-        n = rng.choice((200, 600, 1500) if tier == "quick" else (200, 600, 1500, 4000))
+        n = rng.choice((200, 600, 900) if tier == "quick" else (200, 600, 1500, 3000))
     if rng.random() < 0.1:
         stack = rng.choice((8, 32))          # tiny backtrack stack: overflow path
     else:
